@@ -7,8 +7,10 @@ import (
 	"encoding/hex"
 	"fmt"
 	"io"
+	"os"
 	"sort"
 	"strings"
+	"sync"
 	"time"
 
 	"github.com/opencontainers/go-digest"
@@ -193,9 +195,11 @@ type l2Result struct {
 }
 
 type l2env struct {
-	w  *world
-	ct *content
-	rc *regclient.RegClient
+	w      *world
+	ct     *content
+	rc     *regclient.RegClient
+	ctx    context.Context
+	cancel context.CancelFunc
 }
 
 func setupL2(c Case, withFaults bool) *l2env {
@@ -248,7 +252,27 @@ func setupL2(c Case, withFaults bool) *l2env {
 		ro = append(ro, reg.WithBlobSize(int64(p.Chunk), int64(p.MaxPut)))
 	}
 	rc := rcutil.New(w.m, rcutil.Conf{RetryLimit: c.Limit, DelayInit: dI, DelayMax: dM, Hosts: hosts, RegOpts: ro})
-	return &l2env{w: w, ct: ct, rc: rc}
+	e := &l2env{w: w, ct: ct, rc: rc}
+	e.ctx, e.cancel = context.WithCancel(context.Background())
+	// An upload that keeps sending the same chunk is stopped (by cancelling the operation) soon
+	// after the count bound of clause (2) is exceeded: the verdict is the count, and the
+	// case does not have to sleep through thousands of backed-off repetitions.
+	var mu sync.Mutex
+	seen := map[string]int{}
+	bound := 12*(c.Limit+1) + 3
+	w.m.OnArrive = func(en *rm.Entry) {
+		if en.Class != "upload-patch" {
+			return
+		}
+		mu.Lock()
+		seen[patchKey(en)]++
+		over := seen[patchKey(en)] > bound
+		mu.Unlock()
+		if over {
+			e.cancel()
+		}
+	}
+	return e
 }
 
 func mustRef(s string) ref.Ref {
@@ -337,7 +361,7 @@ func (e *l2env) state() string {
 
 // runOp executes the operation of the case.
 func (e *l2env) runOp(c Case) l2Result {
-	ctx, cancel := context.WithTimeout(context.Background(), 120*time.Second)
+	ctx, cancel := context.WithTimeout(e.ctx, 120*time.Second)
 	defer cancel()
 	rc, ct, p := e.rc, e.ct, c.P
 	src := mustRef(upName + "/" + repoSrc + ":v1")
@@ -460,7 +484,7 @@ func (e *l2env) runOp(c Case) l2Result {
 	default:
 		res.err = fmt.Errorf("harness: unknown op %q", c.Op)
 	}
-	if ctx.Err() != nil {
+	if ctx.Err() == context.DeadlineExceeded {
 		res.timeout = true
 	}
 	res.state = e.state()
@@ -508,6 +532,9 @@ func runL2(c Case, ev *evid.Collector) (vs []*evid.Violation, inconclusive strin
 	w := a.w
 	es := a.w.m.Entries()
 	esB := b.w.m.Entries()
+	if os.Getenv("VERIF_DEBUG") != "" {
+		fmt.Fprintf(os.Stderr, "faulty run: err=%v out=%q\n%sfault free run: err=%v out=%q\n%s", ra.err, ra.out, dumpLog(es), rb.err, rb.out, dumpLog(esB))
+	}
 
 	// ---- fault accounting on the faulty run
 	f, lackInj, spoiled := 0, 0, false
